@@ -1,5 +1,7 @@
 import Complgen.Model.Hex
 import Complgen.Model.Quote
+import Complgen.Model.Pipeline
+import Complgen.Cert.Search
 import Complgen.Gen.Chains
 import Complgen.Gen.Tables
 
@@ -14,8 +16,96 @@ def dialectOf : String → Option (Quote.Dialect × Quote.Chain)
   | "dotlabel" => some (Quote.dotDialect, Gen.dotDfaLabelChain)
   | _ => none
 
+/-! ### keyed automata on the wire: `start;acc,acc,…;from,key,to~from,key,to~…` (no blanks) -/
+
+def parseKAuto (s : String) : Option Cert.KAuto :=
+  match s.splitOn ";" with
+  | [st, acc, tr] => do
+    let start ← st.trimAscii.toString.toNat?
+    let acc ← ((acc.splitOn ",").filter (· ≠ "")).mapM (·.toNat?)
+    let trans ← ((tr.splitOn "~").filter (· ≠ "")).mapM fun t =>
+      match t.splitOn "," with
+      | [a, k, b] => do some (← a.toNat?, k, ← b.toNat?)
+      | _ => none
+    some { start, acc, trans }
+  | _ => none
+
+def KAuto.wire (a : Cert.KAuto) : String :=
+  s!"{a.start};{",".intercalate (a.acc.map toString)};{"~".intercalate (a.trans.map fun t => s!"{t.1},{t.2.1},{t.2.2}")}"
+
+def sortStrings (l : List String) : List String :=
+  l.foldl (fun acc x => let (b, a) := acc.span (· ≤ x); b ++ [x] ++ a) []
+
+/-- canonical form of the language of a keyed automaton: minimise, renumber breadth-first with keys
+in sorted order. -/
+def canonK (a : Cert.KAuto) : Option Cert.KAuto :=
+  let keys := sortStrings (a.trans.map (·.2.1)).eraseDups
+  -- states of the model minimiser start at 1 (0 is the dead state)
+  let sh := fun (q : Nat) => q + 1
+  let au : Auto := { start := sh a.start, acc := a.acc.map sh,
+                     trans := a.trans.map fun t => (sh t.1, (keys.idxOf? t.2.1).getD 0, sh t.2.2),
+                     inputs := keys.map fun _ => Inp.star }
+  match Min.minimize fifo au with
+  | none => none
+  | some m =>
+    let rec bfs : Nat → List Nat → List Nat → List Nat
+      | 0, _, order => order
+      | _ + 1, [], order => order
+      | fuel + 1, q :: rest, order =>
+        let nexts := (List.range keys.length).filterMap fun i => m.step q i
+        let new := nexts.foldl (fun acc x => if order.contains x || acc.contains x then acc else acc ++ [x]) []
+        bfs fuel (rest ++ new) (order ++ new)
+    let order := bfs (m.states.length + 2) [m.start] [m.start]
+    let new := fun q => (order.idxOf? q).getD 0
+    let trans := order.flatMap fun q => (List.range keys.length).filterMap fun i =>
+      (m.step q i).map fun t => (new q, keys[i]!, new t)
+    some { start := 0, acc := normSet (m.acc.map new), trans }
+
+def keyOfInp (subKey : Nat → String) : Inp → String
+  | .lit t d l => s!"L:{Hex.encode t}:{Hex.encodeOpt d}:{l}"
+  | .sub k l => s!"W:{subKey k}:{l}"
+  | .cmd c l => s!"C:{Hex.encode c}:0:{l}"
+  | .compadd c l => s!"C:{Hex.encode c}:1:{l}"
+  | .star => "X"
+
+def kautoOf (subKey : Nat → String) (a : Auto) : Cert.KAuto :=
+  { start := a.start, acc := a.acc,
+    trans := a.trans.map fun t => (t.1, keyOfInp subKey (a.inputs[t.2.1]?.getD .star), t.2.2) }
+
+def hashKey (s : String) : String := toString (hash s)
+
+/-- key of the k-th within-word automaton: the hash of the canonical form of its language, plus the
+number of earlier pool entries with the same language (language-equal automata that were interned
+apart keep different keys, so the main automaton stays deterministic as an automaton over keys) -/
+def subKeys (subs : List Auto) : Nat → String :=
+  let hs := subs.map fun a => match canonK (kautoOf (fun _ => "?") a) with
+    | some c => hashKey (KAuto.wire c)
+    | none => "?"
+  fun k => match hs[k]? with
+    | none => "?"
+    | some h => s!"{h}.{((hs.take k).filter (· == h)).length}"
+
+def spansText (l : List Span) : String := " ".intercalate (l.map Span.text)
+
+def alistText (m : Check.AList Span) : String :=
+  " ".intercalate (sortStrings (m.map fun (n, s) => s!"{Hex.encode n}@{s.text}"))
+
+def shellOf (s : String) : Option Shell := Shell.ofName? s
+
+def outcomeText {α} (f : α → String) : Check.Outcome α → String
+  | .ok a => "ok " ++ f a
+  | .err c s => s!"err {c.name} {spansText s}"
+  | .crash site => s!"crash {site}"
+
+def regexText (r : Regex) : String :=
+  let follow := " ".intercalate ((List.range r.inputs.length).filterMap fun p =>
+    let f := normSet (r.follow p)
+    if f.isEmpty then none else some s!"{p}:{",".intercalate (f.map toString)}")
+  s!"inputs {" | ".intercalate (r.inputs.map RxInput.text)} ; end {r.endPos} ; tree {("K 2 " ++ r.root.text ++ s!"Z {r.endPos}")} ; nullable {r.nullable} ; first {",".intercalate ((normSet r.first).map toString)} ; follow {follow}"
+
 def handle (line : String) : String :=
-  match line.trimAscii.toString.splitOn " " with
+  let line := line.trimAscii.toString
+  match line.splitOn " " with
   | ["quote", sh, h] =>
     match dialectOf sh, Hex.decode h with
     | some (_, ch), some s => "ok " ++ Hex.encode (String.ofList (Quote.applyChain ch s.toList))
@@ -27,6 +117,66 @@ def handle (line : String) : String :=
       | some t => "ok " ++ Hex.encode (String.ofList t)
       | none => "none"
     | _, _ => "bad-op"
+  | "validate" :: sh :: rest =>
+    match shellOf sh, readGrammar (" ".intercalate rest) with
+    | some sh, some g =>
+      outcomeText (fun (v : Check.Valid) =>
+        s!"{Hex.encode v.command} | {v.expr.text.trimAsciiEnd.toString} | {alistText v.undefined} | {alistText v.unused} | {alistText v.unusedSpecs}")
+        (Check.validate g sh)
+    | _, _ => "bad-op"
+  | "rx" :: sh :: rest =>
+    match shellOf sh, readGrammar (" ".intercalate rest) with
+    | some sh, some g =>
+      match Check.validate g sh with
+      | .ok v =>
+        let (r, pool) := Regex.ofExpr v.expr []
+        "ok " ++ regexText r ++ String.join (pool.map fun sr => " ## " ++ regexText sr)
+      | .err c s => s!"err {c.name} {spansText s}"
+      | .crash s => s!"crash {s}"
+    | _, _ => "bad-op"
+  | "compile" :: sh :: rest =>
+    match shellOf sh, readGrammar (" ".intercalate rest) with
+    | some sh, some g =>
+      outcomeText (fun (c : Pipeline.Compiled) =>
+        let sk := subKeys c.raw.subs
+        s!"raw {KAuto.wire (kautoOf sk c.raw.main)} ## min {KAuto.wire (kautoOf sk c.min.main)}" ++
+          String.join (c.min.subs.map fun a => " ## sub " ++ KAuto.wire (kautoOf sk a)))
+        (Pipeline.compile fifo g sh)
+    | _, _ => "bad-op"
+  | ["canon", a] =>
+    match parseKAuto a with
+    | some a => match canonK a with
+      | some c => s!"ok {hashKey (KAuto.wire c)} {c.states.length} {KAuto.wire c}"
+      | none => "none"
+    | none => "bad-op"
+  | ["equiv", a, b] =>
+    match parseKAuto a, parseKAuto b with
+    | some a, some b =>
+      if !Cert.detCheck a then "nondet A" else if !Cert.detCheck b then "nondet B" else
+      match Cert.findBisim a b with
+      | .error w => "differ " ++ " ".intercalate w
+      | .ok R => if Cert.bisimCheck a b R then s!"equiv {R.length}" else "search-failed"
+    | _, _ => "bad-op"
+  | ["minimal", a] =>
+    match parseKAuto a with
+    | some a =>
+      if !Cert.detCheck a then "nondet" else
+      let acc := Cert.accessWords a
+      if !Cert.accessCheck a acc then
+        match a.states.find? (fun s => !(acc.any (·.1 == s))) with
+        | some s => s!"unreachable {s}"
+        | none => "search-failed access"
+      else
+      let co := Cert.coaccessWords a
+      if !Cert.coaccessCheck a co then
+        match a.states.find? (fun s => !(co.any (·.1 == s))) with
+        | some s => s!"dead {s}"
+        | none => "search-failed coaccess"
+      else
+      match Cert.distinguish a with
+      | .error (p, q) => s!"mergeable {p} {q}"
+      | .ok d => if Cert.distinctCheck a d then s!"minimal {a.states.length}" else "search-failed distinct"
+    | none => "bad-op"
   | _ => "bad-op"
 
 partial def loop (h : IO.FS.Stream) (out : IO.FS.Stream) : IO Unit := do
